@@ -26,6 +26,8 @@ async fn run(mut sim: Sim, _seed: u64) -> Result<Value, String> {
         config.connect_timeout_ms = Some([500u64, 2_000, 6_000][sim.rng.gen_range(0..3)]);
         // the cap on connections being established: the hanging dial below may be all it allows
         config.max_concurrent_outstanding_connecting_connections = [None, Some(1), Some(2)][sim.rng.gen_range(0..3)];
+        // the manager's mailbox may hold a single request: API calls queue up in front of it
+        config.connection_manager_channel_capacity = [None, Some(1)][sim.rng.gen_range(0..2)];
         quic(&mut config).max_idle_timeout_ms = Some(10_000);
         quic(&mut config).keep_alive_interval_ms = Some(3_000);
         sim.add_node(NodeCfg { key: k, name: "net".into(), alt: None, config, bind: None }).map_err(|e| e.to_string())?;
@@ -81,6 +83,16 @@ async fn run(mut sim: Sim, _seed: u64) -> Result<Value, String> {
     }
     let gap = [0u64, 0, 1, 3][sim.rng.gen_range(0..4)];
     settle(&mut sim, gap).await;
+    // a burst of connect() calls issued at the very instant of the shutdown: they fill the mailbox
+    for _ in 0..sim.rng.gen_range(0..5) {
+        let net = sim.net(victim).clone();
+        let run = sim.run.clone();
+        tasks.push(tokio::spawn(async move {
+            let r = tokio::time::timeout(Duration::from_secs(120), net.connect(dead)).await;
+            let err = match r { Ok(Ok(_)) => None, Ok(Err(e)) => Some(format!("{e}")), Err(_) => Some("HANG".into()) };
+            run.obs(victim as i64, sim::connect_event(err.as_deref()), json!({"ok": err.is_none(), "err": err}));
+        }));
+    }
     // the shutdown, in one of four ways
     sim.run.obs(-1, "obs.fault", json!({"shutdown": victim}));
     let kind = sim.rng.gen_range(0..4);
